@@ -59,6 +59,49 @@ async def main():
             await asyncio.sleep(0)
             if net._expected_response_futures:
                 return True, f'residue after timeout of {name}', None
+        # 4. a cancelled caller leaves nothing behind
+        for name, call in (('wait_for_server_message', lambda: net.wait_for_server_message(M.Ping.Response, timeout=5)),
+                           ('wait_for_peer_message', lambda: net.wait_for_peer_message('bob', M.PeerPlaceInQueueReply.Request, timeout=5))):
+            task = asyncio.ensure_future(call())
+            await asyncio.sleep(0.01)
+            task.cancel()
+            try:
+                await task
+            except asyncio.CancelledError:
+                pass
+            except BaseException as e:   # noqa
+                return True, f'cancelled {name} raised {type(e).__name__}', {'call': name}
+            await asyncio.sleep(0)
+            if net._expected_response_futures:
+                return True, f'{len(net._expected_response_futures)} request(s) of a CANCELLED {name} still registered at quiescence', {'call': name}
+        # 5. client.execute(): time-out and cancellation leave nothing behind, a late reply completes nobody
+        try:
+            from aioslsk.commands import GetUserStatusCommand
+            client.network.send_server_messages = lambda *a, **k: asyncio.sleep(0)
+            client.network.server_connection.send_message = lambda *a, **k: asyncio.sleep(0)
+            net2 = client.network
+            from aioslsk.session import Session
+            client.session = Session(user=client.users.get_user_object('me'), ip_address='1.1.1.1', greeting='', client_version=1, minor_version=1)
+            try:
+                await client.execute(GetUserStatusCommand('bob'), response=True, timeout=0.02)
+                return True, 'execute() returned without a reply', None
+            except (TimeoutError, asyncio.TimeoutError):
+                pass
+            await asyncio.sleep(0)
+            if net2._expected_response_futures:
+                return True, f'{len(net2._expected_response_futures)} request(s) of a timed out execute() still registered', None
+            task = asyncio.ensure_future(client.execute(GetUserStatusCommand('bob'), response=True, timeout=5))
+            await asyncio.sleep(0.01)
+            task.cancel()
+            try:
+                await task
+            except asyncio.CancelledError:
+                pass
+            await asyncio.sleep(0)
+            if net2._expected_response_futures:
+                return True, f'{len(net2._expected_response_futures)} request(s) of a cancelled execute() still registered', None
+        except ImportError:
+            pass
         return False, '', None
 
 
